@@ -4,6 +4,7 @@ import hir
 import hirpp
 from core import AnchorMissing, Unrecognised, loc
 from spec import sgr
+from rules import anstyle_common as ac
 
 META = {
     "explanation": (
@@ -186,12 +187,13 @@ def run(ctx):
     rep.guarded("codes", FN + "csi_dispatch", lambda: rule_codes(facts, rep))
     rep.guarded("substate", FN + "csi_dispatch", lambda: rule_substate(facts, rep))
     rep.guarded("emit", FN + "csi_dispatch", lambda: rule_emit(facts, rep))
+    rep.guarded("model", FN + "csi_dispatch", lambda: rule_model(facts, rep, ctx.tier))
     # the driver: every input byte reaches the parser (whose state persists across calls) and the text comes from its callbacks
     from rules import C03
     rep.guarded("byte-at-a-time", "anstream::adapter::wincon::next_bytes", lambda: C03.rule_byte_at_a_time(facts, rep))
     from rules import links
     links.parser_under_sgr(facts, rep)   # the runs are only as good as the parser's dispatch of each SGR sequence
-    for r, n in (("codes", 26), ("substate", 33), ("targets", 5), ("emit", 9), ("byte-at-a-time", 6)):
+    for r, n in (("codes", 26), ("substate", 33), ("targets", 5), ("emit", 9), ("model", 1), ("byte-at-a-time", 6)):
         rep.floor(r, n)
 
 
@@ -540,3 +542,164 @@ def rule_emit(facts, rep):
     rep.check(ok_take, "emit", n["path"], "yields-(style,take(printable))", "the pending text is handed over exactly once", loc(n))
     emp = [x for x in hir.stmts_of(n["hir"]) if hir.simp(x).get("k") == "if" and hir.is_call(hir.simp(hir.simp(x)["c"]), "String::is_empty")]
     rep.check(len(emp) == 1 and hir.diverges(hir.simp(emp[0])["t"]), "emit", n["path"], "None-when-no-text", "", loc(n))
+
+
+# ---------------------------------------------------------------------------------------------------------------------
+# the whole of csi_dispatch against a model, by evaluation
+
+def _params_value(groups):
+    """An anstyle_parse::Params holding the given parameters (each a list: the value and its ':' sub-parameters)."""
+    flat, sub = [], [0] * 32
+    for g in groups:
+        sub[len(flat)] = len(g)
+        flat += g
+    n = len(flat)
+    if n > 32:
+        raise ValueError("more than 32 parameter slots")
+    flat = flat + [0] * (32 - n)
+    return ("rec", {"subparams": ("array",) + tuple(("int", x) for x in sub), "params": ("array",) + tuple(("int", x) for x in flat),
+                    "current_subparams": ("int", 0), "len": ("int", n)})
+
+
+def _style_value(fg, bg, ul, eff):
+    def col(c):
+        if c is None:
+            return ("none",)
+        if c[0] == "ansi":
+            return ("some", ("ctor", "anstyle::color::Color::Ansi", ("enum", "anstyle::color::AnsiColor::" + c[1])))
+        if c[0] == "idx":
+            return ("some", ("ctor", "anstyle::color::Color::Ansi256", ("ctor", "anstyle::color::Ansi256Color", ("int", c[1]))))
+        return ("some", ("ctor", "anstyle::color::Color::Rgb", ("ctor", "anstyle::color::RgbColor", ("int", c[1]), ("int", c[2]), ("int", c[3]))))
+    return ("rec", {"fg": col(fg), "bg": col(bg), "underline": col(ul), "effects": ("ctor", "anstyle::effect::Effects", ("int", eff))})
+
+
+def _style_read(v):
+    def col(c):
+        if c == ("none",):
+            return None
+        c = c[1]
+        if c[0] == "ctor" and c[1].endswith("Color::Ansi"):
+            return ("ansi", c[2][1].split("::")[-1])
+        if c[0] == "ctor" and c[1].endswith("Color::Ansi256"):
+            return ("idx", c[2][2][1])
+        if c[0] == "ctor" and c[1].endswith("Color::Rgb"):
+            return ("rgb",) + tuple(x[1] for x in c[2][2:])
+        raise Unrecognised(f"colour value {str(c)[:60]}")
+    if v[0] != "rec":
+        raise Unrecognised(f"style value {str(v)[:60]}")
+    s = v[1]
+    return (col(s["fg"]), col(s["bg"]), col(s["underline"]), s["effects"][2][1])
+
+
+def sgr_model(groups, start, bit):
+    """The set of styles a well-formed SGR parameter list may leave, from `start` = (fg, bg, underline, effect bits): the codes the
+    property lists have one outcome (spec/sgr.py); a code it does not list either changes nothing or follows SGR."""
+    states = {start}
+    i = 0
+    while i < len(groups):
+        g = groups[i]
+        i += 1
+        c = g[0]
+        nxt = set()
+        ext = None
+        if c in (38, 48, 58):
+            # the selector and its arguments: further values of the same parameter (':' spelling) or the following parameters (';')
+            rest = g[1:]
+            j = i
+            while len(rest) < 1 and j < len(groups) and len(groups[j]) == 1:
+                rest = rest + groups[j]
+                j += 1
+            if rest and rest[0] == 5:
+                while len(rest) < 2 and j < len(groups) and len(groups[j]) == 1:
+                    rest = rest + groups[j]
+                    j += 1
+                ext = ("idx", rest[1])
+            elif rest and rest[0] == 2:
+                while len(rest) < 4 and j < len(groups) and len(groups[j]) == 1:
+                    rest = rest + groups[j]
+                    j += 1
+                ext = ("rgb", rest[1], rest[2], rest[3])
+            else:
+                raise ValueError("not a well-formed extended colour")
+            i = j
+        for (fg, bg, ul, eff) in states:
+            if ext is not None:
+                nxt.add((ext if c == 38 else fg, ext if c == 48 else bg, ext if c == 58 else ul, eff))
+            elif c == 0:
+                nxt.add((None, None, None, 0))
+            elif c == 4 and len(g) == 2:
+                st = sgr.UNDERLINE_STYLE[g[1]]
+                e2 = eff | bit["UNDERLINE"]
+                if st != "UNDERLINE":
+                    e2 &= ~bit["UNDERLINE"]
+                    if st is not None:
+                        e2 |= bit[st]
+                nxt.add((fg, bg, ul, e2))
+            elif c in (1, 2, 3, 4, 7, 8, 9, 21):
+                nxt.add((fg, bg, ul, eff | bit[sgr.EFFECT_ON[c]]))
+            elif sgr.colour_code(c):
+                slot, name = sgr.colour_code(c)
+                nxt.add((("ansi", name) if slot == "fg" else fg, ("ansi", name) if slot == "bg" else bg, ul, eff))
+            elif c == 39:
+                nxt.add((None, bg, ul, eff))
+            elif c == 49:
+                nxt.add((fg, None, ul, eff))
+            else:
+                nxt.add((fg, bg, ul, eff))                     # not listed: nothing changes ...
+                if c in sgr.EFFECT_ON:                          # ... or SGR is followed
+                    nxt.add((fg, bg, ul, eff | bit[sgr.EFFECT_ON[c]]))
+                elif c in sgr.EFFECT_OFF:
+                    e2 = eff
+                    for e_ in sgr.EFFECT_OFF[c]:
+                        e2 &= ~bit[e_]
+                    nxt.add((fg, bg, ul, e2))
+                elif c == 59:
+                    nxt.add((fg, bg, None, eff))
+        states = nxt
+    return states
+
+
+def rule_model(facts, rep, tier="quick"):
+    """`csi_dispatch` evaluated as a whole (the real Params iterator underneath) on well-formed parameter lists — every pair of
+    attribute groups (thorough: also triples) over a representative set, extended colours and underline styles in both the ';' and
+    the ':' spelling, from the default style and from a busy one — against the model: attributes combined in one sequence act
+    like the same attributes one after the other, whatever they are."""
+    import abseval
+    b = facts.body("anstream", FN + "csi_dispatch")
+    bit = {n_: v for n_, v, _ in ac.effect_consts(facts)}
+    singles = [[c] for c in (0, 1, 2, 3, 4, 5, 7, 8, 9, 10, 21, 22, 24, 27, 30, 31, 37, 39, 40, 47, 49, 59, 60, 90, 97, 100, 107, 108, 255)]
+    units = [[g] for g in singles] + [[[4, n]] for n in range(6)]
+    for code in (38, 48, 58):
+        units += [[[code], [5], [9]], [[code, 5, 200]], [[code], [2], [1], [2], [3]], [[code, 2, 250, 128, 7]]]
+    starts = [(None, None, None, 0),
+              (("ansi", "Red"), ("ansi", "Green"), ("idx", 9), bit["BOLD"] | bit["UNDERLINE"] | bit["CURLY_UNDERLINE"] | bit["INVERT"])]
+    lists = [u for u in units] + [u + v for u in units for v in units]
+    if tier == "thorough":
+        small = [[[c]] for c in (0, 1, 4, 9, 22, 31, 39, 42, 49, 91, 104, 60)] + [[[4, 3]], [[4, 0]], [[38], [5], [9]], [[48, 2, 1, 2, 3]], [[58, 5, 7]]]
+        lists += [u + v + w for u in small for v in small for w in small]
+    bad, n = [], 0
+    for groups in lists:
+        if sum(len(g) for g in groups) > 32:
+            continue
+        pv = _params_value(groups)
+        for start in starts:
+            n += 1
+            try:
+                ev = abseval.Evaluator(facts, "anstream", {}, inline_crates=("anstream", "anstyle_parse", "anstyle"))
+                ev.concrete_strings = True
+                fin = []
+                ev.call_fn("anstream", b["path"], [("rec", {"style": _style_value(*start), "printable": ("str", ""), "ready": ("none",)}),
+                                                   pv, ("array",), ("bool", False), ("int", ord("m"))], final=fin)
+                got = _style_read(fin[0][1]["style"])
+            except Unrecognised as ex:
+                got = ("not-evaluable", str(ex)[:80])
+            want = sgr_model(groups, start, bit)
+            if got not in want:
+                text = ";".join(":".join(str(x) for x in g) for g in groups)
+                bad.append(f"ESC[{text}m from {start}: {got}, expected {sorted(want, key=str)[:2]}")
+                if len(bad) > 20:
+                    break
+        if len(bad) > 20:
+            break
+    rep.count(n)
+    rep.check(not bad, "model", b["path"], "parameter-lists-against-the-SGR-model", f"{n} (list, starting style) cases evaluated {bad[:3]}"[:600], loc(b))
